@@ -48,12 +48,23 @@ def check(case):
         pi = op[1] % len(run.paras)
         p = run.paras[pi]
         what = "%s on paragraph %d" % (op, pi)
+        route = op[5] if kind == "set" and len(op) > 5 else op[4] if kind == "add" and len(op) > 4 else None
+        if kind == "setbad":
+            if not p:
+                continue
+            f = p[op[2] % len(p)]
+            touched_rich = touched_rich or bool(f["c"])
+            if not run.do_set_bad(pi, (spell(f["n"], op[4] % 3), None), op[3], what,
+                                  op[5] if len(op) > 5 else None):
+                break
+            nops += 1
+            continue
         if kind == "set":
             if not p:
                 continue
             f = p[op[2] % len(p)]
             touched_rich = touched_rich or bool(f["c"]) or f["b"].count("\n") > 1 or "\n" in op[3]
-            run.do_set(pi, (spell(f["n"], op[4] % 3), None), op[3], what)
+            run.do_set(pi, (spell(f["n"], op[4] % 3), None), op[3], what, route)
             # the spelling of an existing name is kept
             run.labels.add("set-existing")
         elif kind == "add":
@@ -61,11 +72,11 @@ def check(case):
             touched_rich = touched_rich or "\n" in op[3]
             if occ:
                 # adding a name that exists (in any case) is an update of that field
-                run.do_set(pi, (op[2], None), op[3], what)
+                run.do_set(pi, (op[2], None), op[3], what, route)
             else:
                 if p and p[-1]["open"]:
                     run.labels.add("add-after-unterminated-field")
-                run.do_set(pi, (op[2], None), op[3], what)
+                run.do_set(pi, (op[2], None), op[3], what, route)
                 if run.paras[pi][-1]["n"] != op[2]:
                     raise Violation("add-not-at-end", what)
         elif kind == "del":
@@ -94,9 +105,13 @@ def check(case):
 
 
 value = st.sampled_from(docs.VALUES)
+ROUTES = [None, None, None, "view", "view-noresolve", "simple", "raw"]
+BAD_VALUES = ["n\nunindented", "n\n\n c", "n\n c\n# trailing comment", "n\nB: injected", "n\n c\n\n"]
 op = st.one_of(
-    st.tuples(st.just("set"), st.integers(0, 5), st.integers(0, 5), value, st.integers(0, 2)),
-    st.tuples(st.just("add"), st.integers(0, 5), st.sampled_from(docs.NEW_NAMES), value),
+    st.tuples(st.just("set"), st.integers(0, 5), st.integers(0, 5), value, st.integers(0, 2), st.sampled_from(ROUTES)),
+    st.tuples(st.just("setbad"), st.integers(0, 5), st.integers(0, 5), st.sampled_from(BAD_VALUES),
+              st.integers(0, 2), st.sampled_from(ROUTES[:5])),
+    st.tuples(st.just("add"), st.integers(0, 5), st.sampled_from(docs.NEW_NAMES), value, st.sampled_from(ROUTES)),
     st.tuples(st.just("del"), st.integers(0, 5), st.integers(0, 5), st.integers(0, 2)),
     st.tuples(st.just("delmissing"), st.integers(0, 5), st.sampled_from(["Nope", "zz"])),
 )
@@ -109,6 +124,8 @@ def small_docs():
     """Bounded-exhaustive: one paragraph of 1..2 fields over 4 bodies x final newline x one op."""
     bodies = [" v\n", "\n c\n", " v\n# ic\n\tc\n", "v\n"]
     ops = [["set", 0, 0, "n", 1], ["set", 0, 1, "n\n c2", 0], ["add", 0, "New", "n"],
+           ["set", 0, 1, "n", 0, "view-noresolve"], ["set", 0, 1, "n\n c", 0, "raw"], ["set", 0, 0, "n", 0, "simple"],
+           ["setbad", 0, 1, "n\nunindented", 0], ["setbad", 0, 0, "n\n\n c", 2, "view"],
            ["add", 0, "New", "n\n c"], ["del", 0, 0, 2], ["del", 0, 1, 0],
            ["add", 1, "Zed", ""], ["set", 1, 0, "  n m ", 2]]
     for tail in ["", "# trailing\n"]:
@@ -125,7 +142,7 @@ def small_docs():
                                  "tail": tail, "final_nl": fin}
                             for o1 in ops:
                                 yield {"doc": d, "ops": [o1], "view": False}
-                                for o2 in ops[2:5]:
+                                for o2 in ops[2:5] + ops[8:9]:
                                     yield {"doc": d, "ops": [o1, o2], "view": True}
 
 
